@@ -717,6 +717,8 @@ class Oracle(object):
         self.impl = impl
         self.R = Record(impl.files)
         self.view = impl.files          # what the font's own reader sees (zip: a snapshot; package: the live disk)
+        self.listing = impl.files       # the UFO when the glyph sets were last bound (their `contents` are a snapshot)
+        self.stale_default = False      # an external default-layer change that no reload has taken over yet
         self.viol = []
         self.same_mtime = set()         # files changed externally without changing the mtime (detection not demanded)
         self.fresh_glyphs = set()       # (layer, glyph) objects created in memory that were never read from / written to disk
@@ -747,6 +749,8 @@ class Oracle(object):
         R = self.R
         files = self.impl.files
         self.view = files
+        self.listing = files
+        self.stale_default = False
         written = {"info", "groups", "lib"} | (dirty_before["parts"] & {"kerning", "features"})
         for p in after["parts"]:
             if p in written or p not in before["parts"]:
@@ -804,6 +808,7 @@ class Oracle(object):
         if k == "test" and ok:
             # the test refreshes the font's reader; glyphs reported as added are taken into the layer's keys
             self.view = files
+            self.listing = files
             for ln in after["order"]:
                 d = xc.layer_dir(files, ln)
                 if d is not None and ln in self.fresh_layers:
@@ -856,6 +861,7 @@ class Oracle(object):
                 R.order = [n for n, _ in xc.layer_contents(files)]
             if L["defaultLayer"]:
                 R.default = xc.default_layer(files)
+                self.stale_default = False
         for ln in after["order"]:
             e = R.layers.get(ln)
             fresh_layer = ln in self.fresh_layers
@@ -875,7 +881,10 @@ class Oracle(object):
                 self.fresh_glyphs.discard((ln, gn))
                 if gn in e["names"]:
                     b = e["glyphs"].pop(gn, None)
-                    if b is None:
+                    ld = xc.layer_dir(self.listing, ln)
+                    if ld is None or gn not in xc.glyph_contents(self.listing, ld):
+                        b = None        # not in the bound glyph set's contents: nothing is scheduled
+                    elif b is None:
                         b = glyph_bytes(view, ln, gn)
                     if b is not None:
                         e["pending"][gn] = b
@@ -1209,7 +1218,11 @@ def run_impl(case):
                 in_keys = op[1] in before["dat_names"]
             exp_bytes = expected_read(oracle, op) if k in ("gget", "imgget", "datget") else None
             files_before = impl.files
+            stale_default_before = oracle.stale_default
+            mem_deleted_before = set(oracle.mem_deleted_layers)
             status, result = impl.do(op)
+            if k == "xldefault" and result == "ok":
+                oracle.stale_default = True
             st = "ok" if status == "ok" else "err:" + str(status[1])
             stats["op." + k] = stats.get("op." + k, 0) + 1
             if st != "ok":
@@ -1253,14 +1266,18 @@ def run_impl(case):
                         for gn in sorted(set(c0) & before["keys"][ln]):
                             b1 = glyph_bytes(impl.files, ln, gn)
                             if b1 is None:
-                                oracle.add("usable", "save/lost-glyph-file", i, op, layer=ln, glyph=gn)
+                                why = "/external-default-change-not-reloaded" if stale_default_before else (
+                                    "/layer-deleted-and-recreated-in-memory" if ln in mem_deleted_before else "")
+                                oracle.add("usable", "save/lost-glyph-file" + why, i, op, layer=ln, glyph=gn)
                                 break
                             if gn not in dirty_before["glyphs"].get(ln, set()) and b1 != files_before[d0 + "/" + c0[gn]][0]:
                                 oracle.add("usable", "save/changed-clean-glyph-file", i, op, layer=ln, glyph=gn)
                                 break
                 if k in ("test", "reloadpart", "acceptdel") and st != "ok":
                     oracle.add("usable", "%s/%s" % (k, st[4:]), i, op, error=result)
-                if k == "reload" and st != "ok" and not x_since_test:
+                if k == "reload" and st == "err:KeyError" and xc.default_layer(impl.files) in oracle.mem_deleted_layers:
+                    oracle.tainted = True     # the UFO's new default layer is one the font has deleted in memory: a conflict
+                elif k == "reload" and st != "ok" and not x_since_test:
                     # (a report that external edits have overtaken since may name files that are gone)
                     oracle.add("usable", "%s/%s" % (k, st[4:]), i, op, error=result)
             # ---- oracle: the report (judged against the record as it was before this test) ------------
@@ -1380,6 +1397,7 @@ class Sim(object):
         self.parts_on_disk = {"info", "lib"} | ({"features"} if spec["features"] is not None else set()) | \
             ({"kerning"} if spec["kerning"] else set()) | ({"groups"} if spec["groups"] else set())
         self.images = dict(spec["images"])
+        self.mem_deleted = set()     # layers deleted in memory since the last save
         self.frozen = set()          # layers whose directories moved / vanished externally and were not re-synchronised
         self.no_save = False
         self.values = {}
@@ -1447,6 +1465,7 @@ class Sim(object):
                 n = rng.choice(c)
                 self.mem_order.remove(n)
                 self.mem_layers.pop(n, None)
+                self.mem_deleted.add(n)
                 return [["ldel", n]]
             return []
         if r < 0.74:
@@ -1480,6 +1499,7 @@ class Sim(object):
     def save(self):
         if self.no_save or self.frozen:
             return []
+        self.mem_deleted = set()
         self.disk_layers = {n: set(self.mem_layers[n]) | (self.disk_layers.get(n, set())) for n in self.mem_order}
         self.disk_order = list(self.mem_order)
         self.disk_default = self.mem_default
@@ -1578,6 +1598,8 @@ class Sim(object):
             return []
         n = rng.choice(c)
         old = self.disk_default
+        if self.mem_default == n:
+            self.no_save = True      # the same change made in memory: the test will not report it (finding F37)
         self.disk_default = n
         return [["xldefault", n, None]] + self.resync([n, old])
 
@@ -1595,6 +1617,8 @@ class Sim(object):
     def after_reload(self):
         # memory now knows the layers / glyph names of the disk (approximately)
         for n in self.disk_order:
+            if n in self.mem_deleted:
+                continue        # a layer the font deleted itself is not reported as added, hence not reloaded
             if n not in self.mem_order:
                 self.mem_order.append(n)
                 self.mem_layers[n] = set(self.disk_layers[n])
@@ -1843,6 +1867,8 @@ def gen_case(rng, tier):
 
 def generate(rng, tier):
     n = 400 if tier == "quick" else 6000
+    for c in witness_cases():
+        yield c
     for _ in range(n):
         yield gen_case(rng, tier)
 
@@ -1863,3 +1889,45 @@ def neighbourhood(case, step, rng):
     for t in tails[:4]:
         yield dict(case, ops=ops + t)
     yield case
+
+
+# ---------------------------------------------------------------------------------------
+# witnesses of the recorded findings (replayed on the real code on every run)
+# ---------------------------------------------------------------------------------------
+
+def _witness_spec():
+    g = dict(EMPTY_GLYPH, width=500)
+    return {"layers": [{"name": "fore", "color": None, "lib": {}, "glyphs": {"A": g}},
+                       {"name": "back", "color": "1,0,0,1", "lib": {}, "glyphs": {"B": dict(g, width=300)}}],
+            "default": "fore", "info": {"familyName": "Fam"}, "guidelines": [], "kerning": {}, "groups": {}, "features": None,
+            "lib": {xc.KEEP_KEY: 1}, "images": {}, "data": {}}
+
+
+WITNESS = {
+    "C05/exact/glyphs.deleted/spurious/memory-only-glyph": [["gnew", "fore", "new"], ["test"]],
+    "C05/exact/layers.deleted/spurious/memory-only-layer": [["lnew", "sketch"], ["test"]],
+    "C05/exact/layers.order/spurious/memory-order-or-layer-change": [["lorder", ["back", "fore"]], ["test"]],
+    "C05/exact/layers.defaultLayer/spurious/memory-default-change": [["ldefault", "back"], ["test"]],
+    "C05/exact/layer.info/spurious/memory-replaced-layer": [["ldel", "back"], ["lnew", "back"], ["test"]],
+    "C05/exact/glyphs.added/spurious/memory-replaced-layer": [["ldel", "back"], ["lnew", "back"], ["test"]],
+    "C05/exact/glyphs.deleted/spurious/memory-replaced-layer": [["ldel", "back"], ["lnew", "back"], ["gnew", "back", "Z"], ["test"]],
+    "C05/usable/save/lost-glyph-file/layer-deleted-and-recreated-in-memory":
+        [["ldel", "back"], ["lnew", "back"], ["test"], ["save"]],
+    "C05/usable/save/lost-glyph-file/external-default-change-not-reloaded":
+        [["ldefault", "back"], ["xldefault", "back", None], ["test"], ["reload"], ["save"]],
+}
+
+
+def witness_cases():
+    # (the F37 witness is replayed on the implementation only: the model keys the UFO's layers by name and cannot
+    # express one glyph directory being moved onto another; it answers such a save with `outside-the-modelled-domain`)
+    return [dict(spec=_witness_spec(), structure="package", ops=ops) for sig, ops in WITNESS.items()
+            if "external-default-change" not in sig]
+
+
+def replay_known(entry):
+    ops = WITNESS.get(entry["signature"])
+    if ops is None:
+        return False
+    r = run_impl(dict(spec=_witness_spec(), structure="package", ops=ops))
+    return any(v["signature"] == entry["signature"] for v in r["viol"])
